@@ -130,6 +130,7 @@ type sim struct {
 	windowRounds int
 	everSeen     map[uint64]bool // ids the user has ever written
 	unset        map[uint64]bool // ids whose current version was written with the zero status for the first reconciler
+	final        map[uint64]reconciler.Status // ids (subset of unset) whose current version the user wrote with a final Done status over a version the reconciler knows
 	roundEnds    []time.Duration // virtual times of round ends (metrics callback, under mu)
 	wmZero       int
 	nextPay      uint64
@@ -214,7 +215,8 @@ func (s *sim) userWrite(where string, rng *rand.Rand) {
 		} else {
 			o.Statuses = reconciler.NewStatusSet()
 		}
-		unset := false
+		unset, isFinal := false, false
+		var finalStatus reconciler.Status
 		if !s.cfg.Pacing {
 			switch rng.IntN(24) {
 			case 0, 1:
@@ -237,6 +239,17 @@ func (s *sim) userWrite(where string, rng *rand.Rand) {
 					unset = true
 					where += " (status unset)"
 				}
+			case 3:
+				// new contents that the user declares already reconciled (status Done, not pending) over a version the reconciler
+				// may be working on or retrying: the reconciler must leave this version and its status exactly as written - the
+				// result of an operation (or retry) on the old version is stale, and a version that is not pending is not updated.
+				// What the target ends up holding is not judged for such an id (the user took it out of reconciliation).
+				if exists && !s.cfg.Refresh && s.cfg.Extra == 0 {
+					finalStatus = reconciler.StatusDone()
+					o.Statuses = o.Statuses.Set(rname, finalStatus)
+					unset, isFinal = true, true
+					where += " (status Done written by the user)"
+				}
 			}
 		}
 		s.table.Insert(w, o)
@@ -249,6 +262,13 @@ func (s *sim) userWrite(where string, rng *rand.Rand) {
 			s.unset[id] = true
 		} else {
 			delete(s.unset, id)
+		delete(s.final, id)
+			delete(s.final, id)
+		}
+		if isFinal {
+			s.final[id] = finalStatus
+		} else {
+			delete(s.final, id)
 		}
 		delete(s.r2done, id)
 		s.writes = append(s.writes, userWrite{s.nextSeq(), s.now(), id, o.Payload, rev, where})
@@ -272,6 +292,8 @@ func (s *sim) userWrite(where string, rng *rand.Rand) {
 			s.model[id], s.modelRev[id] = o.Payload, rev
 			delete(s.r2done, id)
 			delete(s.unset, id)
+		delete(s.final, id)
+			delete(s.final, id)
 			s.writes = append(s.writes, userWrite{s.nextSeq(), s.now(), id, o.Payload, rev, where})
 			s.mu.Unlock()
 			w.Commit()
@@ -283,6 +305,7 @@ func (s *sim) userWrite(where string, rng *rand.Rand) {
 		delete(s.modelRev, id)
 		delete(s.r2done, id)
 		delete(s.unset, id)
+		delete(s.final, id)
 		s.writes = append(s.writes, userWrite{s.nextSeq(), s.now(), id, 0, rev, where})
 		s.mu.Unlock()
 		w.Commit()
@@ -704,6 +727,10 @@ func (s *sim) checkTableAgainstModel(what string) {
 		r2[k] = v
 	}
 	attempts := append([]Attempt(nil), s.attempts...)
+	final := map[uint64]reconciler.Status{}
+	for k, v := range s.final {
+		final[k] = v
+	}
 	s.mu.Unlock()
 	seen := map[uint64]bool{}
 	for o := range s.table.All(rt) {
@@ -718,6 +745,14 @@ func (s *sim) checkTableAgainstModel(what string) {
 			return
 		}
 		st := getStatus(o)
+		if fs, ok := final[o.ID]; ok {
+			// a version the user wrote as already reconciled: status exactly as written, nothing else is judged
+			if st.Kind != fs.Kind || !st.UpdatedAt.Equal(fs.UpdatedAt) || st.Error != nil {
+				s.violate("status", "user-final-status-overwritten", "%s: object id=%d payload=%d was written by the user with status %v and now has status %v", what, o.ID, o.Payload, fs, st)
+				return
+			}
+			continue
+		}
 		// C14 at every quiescent point: an object reported Done must be in the target with exactly its current contents
 		if st.Kind == reconciler.StatusKindDone {
 			s.mu.Lock()
@@ -764,6 +799,24 @@ func (s *sim) checkWatermark(what string) {
 		return
 	}
 	f := s.failedSet()
+	// a version the user wrote as already reconciled (status Done) over a failing one: whether the old version's retry is still
+	// queued depends on whether its failure had been committed before that write - both are legitimate, the value is not judged
+	s.mu.Lock()
+	lastOK := map[uint64]bool{}
+	for _, a := range s.attempts {
+		lastOK[a.ID] = a.OK
+	}
+	ambiguous := false
+	for id := range s.final {
+		if ok, tried := lastOK[id]; tried && !ok {
+			ambiguous = true
+		}
+	}
+	s.mu.Unlock()
+	if ambiguous {
+		s.r.Count("watermark_unjudged_user_final", 1)
+		return
+	}
 	var want uint64
 	for _, rev := range f {
 		if want == 0 || rev < want {
@@ -791,13 +844,24 @@ func (s *sim) convergenceCheck(what string) {
 	attempts := append([]Attempt(nil), s.attempts...)
 	s.mu.Unlock()
 	unset := map[uint64]bool{}
+	final := map[uint64]reconciler.Status{}
 	s.mu.Lock()
 	for k := range s.unset {
 		unset[k] = true
 	}
+	for k, v := range s.final {
+		final[k] = v
+	}
 	s.mu.Unlock()
 	for o := range s.table.All(rt) {
 		k := getStatus(o).Kind
+		if fs, ok := final[o.ID]; ok {
+			if st := getStatus(o); st.Kind != fs.Kind || !st.UpdatedAt.Equal(fs.UpdatedAt) || st.Error != nil {
+				s.violate("status", "user-final-status-overwritten", "%s: object id=%d payload=%d was written by the user with status %v and now has status %v", what, o.ID, o.Payload, fs, st)
+				return
+			}
+			continue
+		}
 		if unset[o.ID] {
 			if k != reconciler.StatusKindUnset {
 				s.violate("status", "unset-status-overwritten", "%s: object id=%d payload=%d was written with the zero status (not to be reconciled) and now has status %s", what, o.ID, o.Payload, k)
@@ -1062,7 +1126,7 @@ func Run(t *testing.T, r *vkit.Run, idx int, cfg Config) {
 	defer stop()
 	synctest.Test(t, func(t *testing.T) {
 		s := &sim{r: r, idx: idx, rng: r.Rand(idx), opRng: r.Rand(idx, 7), cfg: cfg, fp: vkit.NewHash(), target: map[uint64]uint64{}, model: map[uint64]uint64{},
-			modelRev: map[uint64]uint64{}, r2done: map[uint64]uint64{}, t0: time.Now(), inflight: map[uint64]bool{}, unset: map[uint64]bool{}, everSeen: map[uint64]bool{}, waiters: new(sync.WaitGroup)}
+			modelRev: map[uint64]uint64{}, r2done: map[uint64]uint64{}, t0: time.Now(), inflight: map[uint64]bool{}, unset: map[uint64]bool{}, final: map[uint64]reconciler.Status{}, everSeen: map[uint64]bool{}, waiters: new(sync.WaitGroup)}
 		if cfg.HoldLock {
 			// installed before anything of this run can request a table lock
 			s.mainGID = goid()
